@@ -87,11 +87,25 @@ int main(void){
   uriFreeUriMembersMmA(&A1, &mm); uriFreeUriMembersMmA(&A2, &mm); uriFreeUriMembersMmW(&W1, &mm); uriFreeUriMembersMmW(&W2, &mm);
   uk_assert(uk_live() == 0, "C13: all blocks returned");
 #elif defined(MODE_ESC)
+#ifdef TOKENS
+  long n = uk_choice(NMAX + 1, "len"), i; int f1 = 0, f2 = 0, br = 3;     /* token mode: options fixed (the raw mode varies them) */
+#else
   long n = uk_choice(NMAX + 1, "len"), i; int f1 = uk_choice(2, "spaceToPlus"), f2 = uk_choice(2, "normalizeBreaks"), br = uk_choice(4, "breakConversion");
+#endif
   char *a = uk_buf((size_t)n + 1, "inA"), *oa = uk_buf((size_t)(6 * n + 1), "outA"), *ea; wchar_t *w = uk_buf((size_t)(n + 1) * sizeof(wchar_t), "inW"), *ow = uk_buf((size_t)(6 * n + 1) * sizeof(wchar_t), "outW"), *ew;
   const char *ua; const wchar_t *uw; UriBreakConversion bc = br == 0 ? URI_BR_TO_LF : br == 1 ? URI_BR_TO_CRLF : br == 2 ? URI_BR_TO_CR : URI_BR_DONT_TOUCH;
+#ifdef TOKENS
+  /* NMAX tokens, each a symbolic byte or a %XY triplet with symbolic hex digits */
+  { long t, k = 0, nt = n; a = uk_buf((size_t)(3 * nt + 1), "inA");
+    for (t = 0; t < nt; t++){
+      if (uk_choice(2, "triplet")){ char h[2]; uk_sym_bytes(h, 2, "x"); uk_assume(((h[0] >= '0') & (h[0] <= '9')) | ((h[0] >= 'a') & (h[0] <= 'f')) | ((h[0] >= 'A') & (h[0] <= 'F'))); uk_assume(((h[1] >= '0') & (h[1] <= '9')) | ((h[1] >= 'a') & (h[1] <= 'f')) | ((h[1] >= 'A') & (h[1] <= 'F'))); a[k++] = '%'; a[k++] = h[0]; a[k++] = h[1]; }
+      else { char c; uk_sym_bytes(&c, 1, "t"); uk_assume(c != 0); a[k++] = c; } }
+    n = k; a[n] = 0; w = uk_buf((size_t)(n + 1) * sizeof(wchar_t), "inW"); oa = uk_buf((size_t)(6 * n + 1), "outA"); ow = uk_buf((size_t)(6 * n + 1) * sizeof(wchar_t), "outW");
+    for (i = 0; i < n; i++) w[i] = (wchar_t)(unsigned char)a[i]; w[n] = 0; }
+#else
   uk_sym_bytes(a, (size_t)n, "t"); a[n] = 0;
   for (i = 0; i < n; i++){ uk_assume(a[i] != 0); w[i] = (wchar_t)(unsigned char)a[i]; } w[n] = 0;
+#endif
   uk_note_text("text", a, n, 1);
   ea = uriEscapeExA(a, a + n, oa, f1, f2); ew = uriEscapeExW(w, w + n, ow, f1, f2);
   uk_assert(ea - oa == ew - ow, "C19: escaped lengths agree"); if (ea - oa == ew - ow) text_eq(oa, ow, ea - oa + 1, "C19: escaped wide text is the widened narrow text");
